@@ -42,6 +42,15 @@ pub enum Step {
     /// Follows next_page_token from the first page until it is empty.
     Walk { c: usize, kind: String, arg: String, size: i32 },
     Mark { name: String },
+    /// A library-level call (managers / handles, no gRPC) polled by hand `polls` times with
+    /// `yields` scheduler turns after each poll, and dropped if it has not completed by then:
+    /// places a cancellation at an exact suspension point of the server-side handling.
+    Polldrop { c: usize, call: CallSpec, polls: usize, #[serde(default)] yields: usize },
+    /// A library-level call polled once and kept alive (its request sits in an actor mailbox
+    /// or waits for a permit) until `release`.
+    Hold { h: String, c: usize, call: CallSpec },
+    /// Drives the held calls to completion.
+    Release {},
 }
 
 pub async fn settle() {
@@ -61,6 +70,7 @@ pub async fn run_scenario(scenario: &Scenario, out: Option<Out>) -> Vec<Value> {
     let world = World::start(scenario.cap, scenario.phase, out).await;
     let mut calls: HashMap<String, (usize, tokio::task::JoinHandle<()>)> = HashMap::new();
     let mut streams: HashMap<String, StreamHandle> = HashMap::new();
+    let mut held: Vec<crate::libcall::Held> = Vec::new();
 
     for step in &scenario.steps {
         match step.clone() {
@@ -151,9 +161,23 @@ pub async fn run_scenario(scenario: &Scenario, out: Option<Out>) -> Vec<Value> {
             Step::Settle {} => settle().await,
             Step::Drain { c } => drain(&world, c).await,
             Step::Mark { name } => world.ev("mark", json!({"name": name})),
+            Step::Polldrop { c, call, polls, yields } => crate::libcall::poll_drop(&world, c, call, polls, yields).await,
+            Step::Hold { h: _, c, call } => {
+                if let Some(hd) = crate::libcall::hold(&world, c, call) {
+                    held.push(hd);
+                }
+            }
+            Step::Release {} => {
+                for hd in held.drain(..) {
+                    crate::libcall::release(&world, hd).await;
+                }
+            }
         }
     }
 
+    for hd in held.drain(..) {
+        crate::libcall::release(&world, hd).await;
+    }
     // Calls and streams still open at the end: give them the hang limit.
     for (_, (_, handle)) in calls.drain() {
         let _ = handle.await;
